@@ -16,6 +16,11 @@ def _reexec_with_hashseed():
 def main(argv=None):
     _reexec_with_hashseed()
     from . import env  # noqa: F401  (first: pins BLAS threads)
+    import faulthandler, signal
+    try:
+        faulthandler.register(signal.SIGUSR1, all_threads=True)   # kill -USR1 <pid> dumps every thread's stack
+    except (AttributeError, ValueError):
+        pass
     import warnings
     warnings.filterwarnings("ignore", category=SyntaxWarning)
     argv = sys.argv[1:] if argv is None else argv
